@@ -292,7 +292,9 @@ func (s *searcher) step(g *gstate, slot int, in uint32, trace []opt) {
 		return
 	}
 	e := c.next(g.nd[slot], in)
-	s.transitions.Add(1)
+	if s.transitions.Add(1)&0x3fff == 0 && s.r.OutOfTime() {
+		s.abort.Store(true) // internal deadline: the current k is abandoned and reported as not completed
+	}
 	g.nd[slot] = e.to
 	n := e.to
 	for _, o := range e.out {
@@ -500,12 +502,8 @@ func (s *searcher) apply(g *gstate, o opt, cls int16, trace []opt) {
 
 func (s *searcher) dfs(g gstate, budget int, trace []opt, split int) {
 	var buf []opt
-	for n := 0; ; n++ {
+	for {
 		if s.abort.Load() {
-			return
-		}
-		if n&63 == 63 && s.r.OutOfTime() {
-			s.abort.Store(true)
 			return
 		}
 		// States with no budget left have a single (deterministic) continuation; they are cached like all others
